@@ -182,6 +182,11 @@ class TasksRun:
                 def __call__(self) -> Any:
                     return fn()
 
+                def __eq__(self, other: object) -> bool:      # (a value object: equality without a hash)
+                    return self is other
+
+                __hash__ = None  # type: ignore[assignment]
+
                 def stop(self) -> Any:
                     return fn()
 
